@@ -5,6 +5,8 @@
 (* handed plates with the given sample sets and must refuse iff one of them is not single-sample.     *)
 EXTENDS KPerSample, TraceLib
 
+CONSTANT Strict   \* TRUE: the policy returns exactly KPerSample!Allowed (conformance of the transcription; reported as drift)
+                  \* FALSE: the clauses of C16 are evaluated on the set the policy actually returned (the verdict)
 VARIABLES tid, l
 T == Traces[tid]
 Ev == T.steps[l]
@@ -13,7 +15,7 @@ TInit == /\ tid \in 1..Len(Traces) /\ l = 1
          /\ k = Traces[tid].k
          /\ sampleOf = [p \in 0..Len(Traces[tid].sampleOf) - 1 |-> Traces[tid].sampleOf[p + 1]]
          /\ observed = [p \in 0..Len(Traces[tid].observed) - 1 |-> Traces[tid].observed[p + 1]]
-         /\ batch = << >>
+         /\ batch = Traces[tid].batch0            \* (empty for walks; an explored state of KPerSample.tla for single-step replays)
          /\ flow = Traces[tid].flow
 
 \* constants of KPerSample are only used by its Init; the trace supplies the configuration
@@ -29,16 +31,28 @@ TAllowed(b) ==
     IN IF ch # -1 THEN {p \in TRemaining(b) : sampleOf[p] = ch}
        ELSE {p \in TRemaining(b) : ~(rc(sampleOf[p]) > 0 /\ rc(sampleOf[p]) < k) /\ bc(sampleOf[p]) = 0}
 
+\* the clauses of C16 on a returned set A
+Rc(b, s) == Cardinality({p \in TRemaining(b) : sampleOf[p] = s})
+Bc(b, s) == Cardinality({p \in InBatch(b) : sampleOf[p] = s})
+TSamples == {sampleOf[p] : p \in TPlates}
+RelAllowed(A) ==
+    /\ Check(tid, l, "C16:allowed-are-unobserved-and-not-in-the-batch", A \subseteq TRemaining(batch))
+    /\ Check(tid, l, "C16:only-the-sample-in-progress-and-at-least-one",
+             \A s \in TSamples : (Bc(batch, s) >= 1 /\ Bc(batch, s) <= k - 1) => (A # {} /\ \A p \in A : sampleOf[p] = s))
+    /\ Check(tid, l, "C16:new-sample-opened-only-if-k-of-its-plates-remain",
+             \A p \in A : Bc(batch, sampleOf[p]) = 0 => Rc(batch, sampleOf[p]) >= k)
+AllowedOk(A) == IF Strict THEN Check(tid, l, "allowed-set", A = TAllowed(batch)) ELSE RelAllowed(A)
 TSelect == /\ T.kind = "walk" /\ l <= Len(T.steps) /\ Ev.ev = "select"
-           /\ Check(tid, l, "allowed-set", {Ev.allowed[x] : x \in 1..Len(Ev.allowed)} = TAllowed(batch))
-           /\ Check(tid, l, "chosen-is-allowed", Ev.chosen \in TAllowed(batch))
-           /\ Check(tid, l, "chosen-has-minimal-score", \A q \in TAllowed(batch) : Ev.rank[Ev.chosen + 1] <= Ev.rank[q + 1])
+           /\ LET A == {Ev.allowed[x] : x \in 1..Len(Ev.allowed)} IN
+              /\ AllowedOk(A)
+              /\ Check(tid, l, "chosen-is-allowed", Ev.chosen \in A)
+              /\ Check(tid, l, "chosen-has-minimal-score", \A q \in A : Ev.rank[Ev.chosen + 1] <= Ev.rank[q + 1])
            /\ batch' = Append(batch, Ev.chosen)
            /\ observed' = IF flow = "retrospective" THEN [observed EXCEPT ![Ev.chosen] = TRUE] ELSE observed
            /\ l' = l + 1 /\ UNCHANGED <<k, sampleOf, flow, tid>>
 TEnd == /\ T.kind = "walk" /\ l <= Len(T.steps) /\ Ev.ev = "none"
-        /\ Check(tid, l, "nothing-returned-only-if-nothing-allowed", TAllowed(batch) = {})
-        /\ Check(tid, l, "policy-returned-empty", Len(Ev.allowed) = 0)
+        /\ AllowedOk({Ev.allowed[x] : x \in 1..Len(Ev.allowed)})
+        /\ Check(tid, l, "nothing-returned-only-if-nothing-allowed", Len(Ev.allowed) = 0)
         /\ l' = l + 1 /\ UNCHANGED <<k, sampleOf, observed, batch, flow, tid>>
 TMulti == /\ T.kind = "multi" /\ l = 1
           /\ Check(tid, l, "refuse-iff-multi-sample-plate",
@@ -55,4 +69,12 @@ TInv == /\ \A s \in {sampleOf[p] : p \in TPlates} :
               /\ (Len(batch) % k = 0 => bc \in {0, k})
         /\ Cardinality({s \in {sampleOf[p] : p \in TPlates} :
               LET bc == Cardinality({p \in InBatch(batch) : sampleOf[p] = s}) IN bc > 0 /\ bc < k}) <= 1
+\* the same as a CONSTRAINT: a violated consequence is reported by name and the trace is cut there
+TInvClauses ==
+    /\ Check(tid, l, "C16:no-sample-with-more-than-k-plates-in-the-batch",
+             \A s \in TSamples : Bc(batch, s) <= k)
+    /\ Check(tid, l, "C16:every-batch-of-m-times-k-plates-gives-each-sample-zero-or-k",
+             Len(batch) % k = 0 => \A s \in TSamples : Bc(batch, s) \in {0, k})
+    /\ Check(tid, l, "C16:at-most-one-incomplete-sample",
+             Cardinality({s \in TSamples : Bc(batch, s) > 0 /\ Bc(batch, s) < k}) <= 1)
 =============================================================================
